@@ -23,6 +23,8 @@ tiefreq                      -> ok | differ from_frequencies(data/frequencies) i
 rfq <f0,…,f255> <hex>        -> skip | deep | <hex>   C++ ConstructTree + Compress (model of both);
                                 `skip` when the C++ `int` arithmetic would overflow (Σ|f as i32| + 1 ≥ 2^31),
                                 `deep` when a code is longer than 31 bits (`1 << Depth` undefined)
+fqd <f0,…,f255> <cap:hex>…   -> panic | one `ok:<hex>` / `capacity` per item: decoding with the table
+                                built from the frequencies (one construction, many streams)
 fq <f0,…,f255> <cap> <hex>   -> panic | ok <fnv of code strings> <compress hex> <compress_bug hex>
                                 <len> <lenbug> <decompress of hex at cap: ok:<hex> | capacity>
 ```
@@ -114,6 +116,9 @@ def reprHash (t : Table) : UInt64 := Id.run do
     h := fnvByte h 0x0a
   return h
 
+/-- space-separated, `-` for none -/
+def listStr' (xs : List String) : String := if xs.isEmpty then "-" else " ".intercalate xs
+
 def parseFreqs (s : String) : Option (List Nat) := (s.splitOn ",").mapM parseNat
 
 def handle (toks : List String) : String :=
@@ -180,6 +185,25 @@ def handle (toks : List String) : String :=
         else
           let r := refConstruct fs
           if r.maxLen ≥ 32 then "deep" else toHex (refTreeCompress r xs)
+    | _, _ => "bad-op"
+  | "fqd" :: fs :: items =>
+    match parseFreqs fs, items.mapM (fun it => match it.splitOn ":" with
+        | [c, h] => match parseNat c, parseHex h with
+          | some c, some xs => some (c, xs)
+          | _, _ => none
+        | _ => none) with
+    | some fs, some items =>
+      match fromFrequencies fs with
+      | .panic _ => "panic"
+      | .diverge => "diverge"
+      | .ok t =>
+        if ¬ (decide (WellFormed t) ∧ decide (LutOk t)) then "ok-but-not-wellformed"
+        else
+          listStr' (items.map fun (cap, xs) =>
+            match decompressFast t xs cap with
+            | .ok out => s!"ok:{toHex out}"
+            | .capacity => "capacity"
+            | .diverge => "diverge")
     | _, _ => "bad-op"
   | ["fq", fs, cap, h] =>
     match parseFreqs fs, parseNat cap, parseHex h with
